@@ -3,6 +3,7 @@ from __future__ import annotations
 from collections.abc import KeysView
 import functools
 import math
+import warnings
 
 import numpy as np
 
@@ -41,12 +42,21 @@ def _get_percentile_intermediate_result_over_trials(
     if direction == StudyDirection.MAXIMIZE:
         percentile = 100 - percentile
 
-    return float(
-        np.nanpercentile(
-            np.array(intermediate_values, dtype=float),
-            percentile,
-        )
-    )
+    values = np.array(intermediate_values, dtype=float)
+    p = float(np.nanpercentile(values, percentile))
+    if math.isnan(p) and np.isinf(values).any():
+        # NumPy interpolates between the two neighboring order statistics `a` and `b` with
+        # `a + (b - a) * t`, which is NaN (`inf * 0` or `inf - inf`) when one of them is infinite
+        # although the percentile is well defined there.
+        with warnings.catch_warnings():
+            warnings.simplefilter("ignore", category=RuntimeWarning)
+            lower = float(np.nanpercentile(values, percentile, method="lower"))
+            higher = float(np.nanpercentile(values, percentile, method="higher"))
+        if lower == higher:
+            p = lower
+        elif math.isinf(lower) != math.isinf(higher):
+            p = lower if math.isinf(lower) else higher
+    return p
 
 
 def _is_first_in_interval_step(
